@@ -22,8 +22,8 @@ type Target struct {
 	Deps      []string          `json:"deps,omitempty"`
 	Tool      string            `json:"tool,omitempty"` // label of a binary target run by the command
 	Outs      []string          `json:"outs,omitempty"`
-	DirOut    string            `json:"dir_out,omitempty"`   // a directory output (listed in outs)
-	ExtraDir  bool              `json:"extra_dir,omitempty"` // uses output_dirs to emit one more file
+	DirOut    string            `json:"dir_out,omitempty"`    // a directory output (listed in outs)
+	ExtraDir  bool              `json:"extra_dir,omitempty"`  // uses output_dirs to emit one more file
 	PostBuild bool              `json:"post_build,omitempty"` // a post-build function adds one more output, named by what the command printed
 	Op        string            `json:"op,omitempty"`
 	Salt      string            `json:"salt,omitempty"`
@@ -297,6 +297,11 @@ func (r *Repo) Command(t *Target) string {
 	if t.Fail == "missingout" {
 		c = append(c, fmt.Sprintf(`rm -rf "%s"`, t.Outs[0]))
 	}
+	if t.Fail == "late-exit1" {
+		// everything has been written into the build directory by now; fail without the end marker
+		c = append(c, "echo failing late on purpose >&2", "exit 1")
+		return strings.Join(c, "; ")
+	}
 	if v != "" {
 		if r.Overlap {
 			c = append(c, fmt.Sprintf(`rmdir "%s/%s.running"`, v, id))
@@ -540,6 +545,8 @@ type GenOpts struct {
 	DepOneIn            int  // a target takes each earlier target as a source with probability 1/DepOneIn (default 4)
 	Subinclude          bool // packages subinclude a generated build_defs file (a build is needed during parsing)
 	PostBuild           bool // some genrules get a post-build function that adds an output named by the command's stdout
+	FilegroupDeps       bool // filegroups get deps= on earlier genrules (not re-exported), and later genrules often depend on such filegroups through deps=
+	AbsorbingTools      bool // tools get an operation that absorbs most source changes (wc/head/const) and always a local source, so a rebuilt tool often has byte-identical output
 }
 
 var defaultOps = []string{"full", "full", "names", "content", "wc", "sortu", "head", "const"}
@@ -627,6 +634,15 @@ func Generate(rng *rand.Rand, o GenOpts) *Repo {
 		switch t.Kind {
 		case "genrule":
 			t.Op = pick(rng, o.Ops)
+			// A target whose set of outputs is only known after it ran (output_dirs, post-build add_out) usually
+			// gets a dependent that lists the names of everything it receives, so that an output that should not
+			// be there (or is missing) shows up in a declared output.
+			if n := len(r.Targets); n > 0 && rng.Intn(3) != 0 {
+				if prev := r.Targets[n-1]; (prev.ExtraDir || prev.PostBuild) && !prev.IsTool && !contains(t.SrcLabels, prev.Label()) {
+					t.SrcLabels = append(t.SrcLabels, prev.Label())
+					t.Op = pick(rng, []string{"names", "full"})
+				}
+			}
 			t.Outs = []string{fmt.Sprintf("o%d.out", i)}
 			if rng.Intn(4) == 0 {
 				t.Outs = append(t.Outs, fmt.Sprintf("sub%d/o%db.out", i, i))
@@ -654,6 +670,14 @@ func Generate(rng *rand.Rand, o GenOpts) *Repo {
 			if o.Tools && rng.Intn(6) == 0 && len(t.SrcLabels) == 0 {
 				t.IsTool = true
 				t.Outs = []string{fmt.Sprintf("tool%d.sh", i)}
+				if o.AbsorbingTools {
+					t.Op = pick(rng, []string{"const", "wc", "head", "names"})
+					if len(t.SrcFiles) == 0 {
+						src := fmt.Sprintf("toolsrc%d.txt", i)
+						t.SrcFiles = []string{src}
+						r.Files[filepath.Join(t.Pkg, src)] = pick(rng, words) + "0"
+					}
+				}
 				t.DirOut, t.ExtraDir, t.Env, t.Binary, t.PostBuild = "", false, nil, false, false
 			}
 			if !t.IsTool && o.Tools {
@@ -669,8 +693,20 @@ func Generate(rng *rand.Rand, o GenOpts) *Repo {
 			}
 			// extra (non-source) deps
 			for _, prev := range r.Targets {
-				if !prev.IsTool && rng.Intn(8) == 0 && !contains(t.SrcLabels, prev.Label()) {
+				odds := 8
+				if o.FilegroupDeps && prev.Kind == "filegroup" && len(prev.Deps) > 0 {
+					odds = 2
+				}
+				if !prev.IsTool && rng.Intn(odds) == 0 && !contains(t.SrcLabels, prev.Label()) {
 					t.Deps = append(t.Deps, prev.Label())
+				}
+			}
+		case "filegroup":
+			if o.FilegroupDeps {
+				for _, prev := range r.Targets {
+					if prev.Kind == "genrule" && !prev.IsTool && len(t.Deps) < 2 && rng.Intn(3) == 0 && !contains(t.SrcLabels, prev.Label()) {
+						t.Deps = append(t.Deps, prev.Label())
+					}
 				}
 			}
 		case "text_file":
